@@ -1,12 +1,12 @@
 SPECIFICATION Spec
 CONSTANTS
-  Mode = "direct"
+  Mode = "plugin"
   Flows = FALSE
   MaxLines = 3
   MaxBatch = 2
-  MaxTicks = 1
-  MaxRestarts = 1
-  MaxWrites = 0
-  Bug = "none"
+  MaxTicks = 0
+  MaxRestarts = 0
+  MaxWrites = 1
+  Bug = "benign_remedy_first"
 INVARIANTS Accept
 CHECK_DEADLOCK FALSE
